@@ -1376,8 +1376,13 @@ class DiameterMessage:
 
         avp = self.__dict__[avp_key]
 
-        #: Updates DiameterMessage attributes.
-        self._avps.remove(avp)
+        #: Updates DiameterMessage attributes. The DiameterAVP object bound to 
+        #: the key is the one to leave the list, not the first one equal to it.
+        for index, _avp in enumerate(self._avps):
+            if _avp is avp:
+                del self._avps[index]
+                break
+
         self.__dict__.pop(avp_key, None)
 
         #: It updates the DiameterMessage object length attribute with the 
